@@ -134,6 +134,21 @@ class LockSpec:
         it.allow = SERVER_ALLOW
         self.locks = Locks(it)
         install(it, self.locks)
+        if self.fn == 'on_did_change_watched_files':
+            # compositional: set_vfs_file_content is a handler of its own run (entered with no guard live, it write-locks the Vfs and applies the
+            # change); here it is a callee that must be ENTERED with no guard live - following it again would multiply its 2 000 paths by the
+            # paths of the file-event loop
+            it.allow = [a.replace('set_vfs_file_content|', '') for a in SERVER_ALLOW]
+            locks = self.locks
+
+            def hook(it_, callee, args):
+                short = callee.split('(')[0]
+                if short.endswith('::set_vfs_file_content'):
+                    live = locks.live()
+                    if live:
+                        locks.findings.append('L1: set_vfs_file_content (which write-locks the Vfs and applies the change) is entered while a %s guard of %s (taken in %s) is live' % (live[0].mode, live[0].lock, live[0].site))
+                    locks.events.append(('call', 'set_vfs_file_content', len(live), ''))
+            it.call_hooks.append(hook)
         # the set of open documents is not empty: iterating the keys of the (under-constrained) opened_files map yields one document
         base_keys = it.models.get('HashMap::keys')
 
@@ -149,7 +164,12 @@ class LockSpec:
         body = [b for n, b in vfsk.W.crates['glas'].items() if re.search(r'^server::<impl at [^>]*>::%s$' % self.fn, n)][0]
         srv = LazyV('server')
         args = [RefV([srv], 0)]
-        if self.fn == 'on_did_change':
+        if self.fn == 'on_did_change_watched_files':
+            # one file event for a file that is NOT open (the handler skips open ones); both open documents are "other" documents
+            self.named = Opaque('uri-of-an-open-document')
+            params = Agg('struct', 'DidChangeWatchedFilesParams', None, [VecV([Agg('struct', 'FileEvent', None, [Opaque('uri-of-the-changed-file'), LazyV('typ')])])])
+            args.append(params)
+        elif self.fn == 'on_did_change':
             changes = [Agg('struct', 'TextDocumentContentChangeEvent', None, [LazyV('range%d' % i), LazyV('range_length%d' % i), LazyV('text%d' % i)]) for i in range(self.nchanges)]
             params = Agg('struct', 'DidChangeTextDocumentParams', None, [Agg('struct', 'VersionedTextDocumentIdentifier', None, [LazyV('uri'), LazyV('version')]), VecV(changes)])
             args.append(params)
@@ -216,7 +236,7 @@ class ConvergeSpec:
         it = vfsk.W.interp('glas', uc=True)
         # every method of the Server impl is followed (helpers a fix may introduce included), except the one whose calls are the obligation
         it.allow = [r'^server::<impl at [^>]*>::(?!spawn_update_diagnostics$|spawn_with_snapshot$|spawn_reload_config$|on_initialize|load_package_files$|assemble_graph$)\w+$',
-                    r'^server::<impl at [^>]*>::(?!spawn_update_diagnostics::)\w+::\{closure#\d+\}$']
+                    r'^server::<impl at [^>]*>::(?!spawn_update_diagnostics::|on_did_change_watched_files::)\w+::\{closure#\d+\}$']   # (the file-reading closure is I/O: havoc'd)
         self.locks = Locks(it)
         install(it, self.locks)
         self.other = Opaque('uri-of-the-other-open-document')
@@ -238,7 +258,11 @@ class ConvergeSpec:
         body = [b for n, b in vfsk.W.crates['glas'].items() if re.search(r'^server::<impl at [^>]*>::%s$' % self.fn, n)][0]
         self.named = Opaque('uri-of-the-notification')
         srv = LazyV('server')
-        if self.fn == 'on_did_change':
+        if self.fn == 'on_did_change_watched_files':
+            # one file event for a file that is NOT open (the handler skips open ones); both open documents are "other" documents
+            self.named = Opaque('uri-of-an-open-document')
+            params = Agg('struct', 'DidChangeWatchedFilesParams', None, [VecV([Agg('struct', 'FileEvent', None, [Opaque('uri-of-the-changed-file'), LazyV('typ')])])])
+        elif self.fn == 'on_did_change':
             changes = [Agg('struct', 'TextDocumentContentChangeEvent', None, [LazyV('range0'), LazyV('range_length0'), LazyV('text0')])]
             params = Agg('struct', 'DidChangeTextDocumentParams', None, [Agg('struct', 'VersionedTextDocumentIdentifier', None, [self.named, LazyV('version')]), VecV(changes)])
         else:
@@ -256,7 +280,7 @@ class ConvergeSpec:
             if not covers_other:
                 rec.update({'cls': 'violation', 'ok': False, 'cex': {'handler': self.fn, 'diagnostics_tasks_for': ['the named document' if u is self.named else str(u) for u in uris]},
                             'why': ['C16: L6: %s applies a change (which cancels the diagnostics computation of every open document) but re-spawns diagnostics only for %s: '
-                                    'another open document whose task was cancelled keeps the empty list its cancelled task published' % (self.fn, 'the document it names' if covers_named else 'no document')]})
+                                    'another open document whose task was cancelled is left without the diagnostics of its text until its next edit' % (self.fn, 'the document it names' if covers_named else 'no document')]})
         return rec
 
     def on_panic(self, it, e):
